@@ -189,14 +189,14 @@ theorem claimsCover_of_covered {s : State} (hi : Inv s)
 theorem step_autoDescribe (s : State) (op : Op) : (step s op).1.autoDescribe = s.autoDescribe := by
   cases op with
   | register c =>
-    simp only [step, register]; split <;> rfl
+    simp only [step, register_eq, registerAtomic]; split <;> rfl
   | unregister c =>
-    simp only [step, unregister]
+    simp only [step, unregister_eq, unregisterOf]
     split
     · rfl
     · split <;> rfl
   | setTargetInfo l =>
-    simp only [step, setTargetInfo]
+    simp only [step, setTargetInfo_eq]
     split
     · split <;> rfl
     · split <;> rfl
